@@ -56,6 +56,7 @@ class Context:
     """State of one path."""
 
     def __init__(self, prefix: List[bool], timeout_ms: int = 10000):
+        timeout_ms = int(timeout_ms * float(os.environ.get("VERIF_TIMEOUT_SCALE", "1") or 1))  # (the CLI's second chance for undecided units)
         self.prefix = list(prefix)
         self.decisions: List[bool] = []  # every *free* decision taken on this path
         self.pending: List[List[bool]] = []  # prefixes to explore later
